@@ -475,8 +475,116 @@ def planted_3sat(nvars, nclauses, seed):
     return out
 
 
+def multiplier_cnf(n, product):
+    """Tseitin CNF of an n x n array multiplier (shift-and-add with ripple-carry rows) whose 2n output bits are fixed to
+    `product`. Returns (clauses, a_vars, b_vars)."""
+    cl = []
+    cnt = [0]
+    def new():
+        cnt[0] += 1
+        return cnt[0]
+    a = [new() for _ in range(n)]
+    b = [new() for _ in range(n)]
+    FALSE = new()
+    cl.append([-FALSE])
+    def AND(x, y):
+        z = new(); cl.extend([[-z, x], [-z, y], [z, -x, -y]]); return z
+    def XOR(x, y):
+        z = new(); cl.extend([[-z, x, y], [-z, -x, -y], [z, -x, y], [z, x, -y]]); return z
+    def OR(x, y):
+        z = new(); cl.extend([[z, -x], [z, -y], [-z, x, y]]); return z
+    def full_add(x, y, c):
+        t = XOR(x, y); s = XOR(t, c)
+        carry = OR(AND(x, y), AND(t, c))
+        return s, carry
+    acc = [FALSE] * (2 * n)   # running sum, little endian
+    for j in range(n):
+        row = [AND(a[i], b[j]) for i in range(n)]
+        carry = FALSE
+        new_acc = list(acc)
+        for i in range(n):
+            s, carry = full_add(acc[i + j], row[i], carry)
+            new_acc[i + j] = s
+        k = j + n
+        while k < 2 * n:
+            s, carry = full_add(acc[k], FALSE, carry)
+            new_acc[k] = s
+            k += 1
+        acc = new_acc
+    for k in range(2 * n):
+        cl.append([acc[k]] if (product >> k) & 1 else [-acc[k]])
+    return cl, a, b
+
+
+def guarded_php(pigeons, holes):
+    """every clause of PHP(pigeons, holes) weakened by the guard literal -1, plus (1 or 2) and (-2 or -1): satisfiable
+    (guard false, variable 2 true), but the branch guard=true is the full pigeonhole problem"""
+    cl = [[(l + 2 if l > 0 else l - 2) for l in c] + [-1] for c in php(pigeons, holes)]
+    return cl + [[1, 2], [-2, -1]]
+
+
+def circuit_model(clauses, fixed):
+    """total assignment of a functional circuit CNF: unit propagation from the fixed inputs (harness error if it stalls)"""
+    val = dict(fixed)
+    changed = True
+    while changed:
+        changed = False
+        for c in clauses:
+            free = None
+            sat = False
+            nfree = 0
+            for l in c:
+                v = val.get(abs(l))
+                if v is None:
+                    nfree += 1
+                    free = l
+                elif v == (l > 0):
+                    sat = True
+                    break
+            if not sat and nfree == 1:
+                val[abs(free)] = free > 0
+                changed = True
+            elif not sat and nfree == 0:
+                raise RuntimeError("circuit_model: the fixed inputs contradict the circuit")
+    nv = max(abs(l) for c in clauses for l in c)
+    if len(val) != nv:
+        raise RuntimeError("circuit_model: propagation did not determine every variable")
+    return val
+
+
+def judge_known_models(clauses, cfg, res, verdict, learned, known):
+    """Oracle for formulas that are satisfiable by construction, with some (or all) of their models known: the verdict
+    must be a model; every learned clause must hold in every known model (for a formula with one model: entailment)."""
+    from solvor.types import Status
+
+    if verdict == "nontermination":
+        return [("C02", "nontermination", "solve_sat did not return within the fuel budget")]
+    if isinstance(verdict, str):
+        return [("C02", "raised", verdict)]
+    out = []
+    for m in known:
+        if satref.satisfies(m, clauses) >= 0:
+            raise RuntimeError("judge_known_models: a 'known model' does not satisfy the formula (harness defect)")
+    if res.status == Status.INFEASIBLE:
+        out.append(("C02", "wrong_infeasible", "INFEASIBLE for a formula that is satisfiable by construction"))
+    elif res.status == Status.OPTIMAL and res.solution is None:
+        out.append(("C02", "no_model_returned", "status OPTIMAL without a model"))
+    elif res.status not in (Status.OPTIMAL, Status.MAX_ITER):
+        out.append(("C02", "status", f"status {res.status.name}"))
+    if res.solution is not None:
+        bad = satref.satisfies(res.solution, clauses)
+        if bad >= 0:
+            out.append(("C01", "not_a_model", f"solution falsifies clause {list(clauses[bad])}"))
+    for k, lc in enumerate(learned):
+        for m in known:
+            if not any(m[abs(l)] == (l > 0) for l in lc):
+                out.append(("C02", "unimplied_learned_clause", f"learned clause #{k} {lc if len(lc) <= 12 else str(lc[:12]) + '...'} is false in a model of the formula, hence not entailed"))
+                return out
+    return out
+
+
 def large_cases():
-    """(name, clauses, config, expected number of models or None): formulas with 20 to 300 variables whose verdict is
+    """(name, clauses, config, expected number of models or None[, known models]): formulas with 20 to 300 variables whose verdict is
     known by construction"""
     out = []
     for n in (70, 300):
@@ -493,7 +601,64 @@ def large_cases():
     for nv, nc, sd in ((30, 120, 1), (30, 126, 2), (40, 160, 3), (60, 228, 4), (60, 240, 5)):
         for lf in (1, 100):
             out.append((f"planted_3sat_{nv}v_{nc}c_seed{sd}_luby{lf}", planted_3sat(nv, nc, sd), dict(luby_factor=lf), None))
+    # satisfiable formulas that cost thousands of conflicts under default tuning (hundreds of analyses, Luby restarts,
+    # clause-database reductions inside one call)
+    for pg in (7, 8):
+        g = guarded_php(pg, pg - 1)
+        nv = max(abs(l) for c in g for l in c)
+        known = [{v: (v == 2) if v <= 2 else fill(v) for v in range(1, nv + 1)} for fill in (lambda v: False, lambda v: True, lambda v: v % 2 == 0)]
+        out.append((f"guarded_pigeonhole_{pg}_into_{pg - 1}", g, dict(), None, known))
+    for nb, prime in ((11, 1433), (12, 2423), (13, 5783)):
+        cl, a, b = multiplier_cnf(nb, prime * prime)
+        fixed = {v: bool(prime >> i & 1) for i, v in enumerate(a)}
+        fixed.update({v: bool(prime >> i & 1) for i, v in enumerate(b)})
+        out.append((f"multiplier_{nb}x{nb}_product_{prime}_squared", cl, dict(), None, [circuit_model(cl[:-2 * nb], fixed)]))
     return out
+
+
+def _is_prime(x):
+    return x > 1 and all(x % d for d in range(2, int(x**0.5) + 1))
+
+
+@functools.lru_cache(maxsize=None)
+def multiplier_family():
+    """(bits, prime): for 10..13 bits every k-th prime with the top bit set, twelve per width"""
+    out = []
+    for n in (10, 11, 12, 13):
+        ps = [p for p in range(2 ** (n - 1) + 1, 2**n) if _is_prime(p)]
+        out += [(n, p) for p in ps[:: max(1, len(ps) // 12)][:12]]
+    return tuple(out)
+
+
+def _multiplier_chunk(params, lo, hi):
+    """n x n array multiplier with the product fixed to p^2, p prime: exactly one model (both factors p), hundreds to
+    thousands of conflicts under default tuning; every learned clause must hold in that model (= entailment)"""
+    pid = params
+    fam = multiplier_family()
+    r = new_result()
+    for idx in range(lo, hi):
+        nb, prime = fam[idx]
+        name = f"multiplier_{nb}x{nb}_product_{prime}_squared"
+        cl, a, b = multiplier_cnf(nb, prime * prime)
+        fixed = {v: bool(prime >> i & 1) for i, v in enumerate(a)}
+        fixed.update({v: bool(prime >> i & 1) for i, v in enumerate(b)})
+        known = [circuit_model(cl[: -2 * nb], fixed)]
+        cfg = dict(_guard=HEAVY)
+        res, verdict, learned, ncalls, tap_on = call(cl, cfg)
+        vs_ = judge_known_models(cl, cfg, res, verdict, learned, known)
+        r["n"] += 1
+        r["nontrivial"] += 1
+        r["outcomes"]["multiplier:" + classify(res, verdict, learned, ncalls)] += 1
+        r["counters"]["learned_clauses_checked_against_known_models"] += len(learned)
+        r["counters"]["analysed_conflicts"] += ncalls
+        if ncalls > 255:
+            r["counters"]["cases_with_more_than_255_conflicts"] += 1
+        for p_, kind, detail in vs_:
+            if p_ == pid:
+                r["violations"].append({"function": "solve_sat", "predicates": [], "kind": kind, "witness": {"multiplier": [nb, prime]}, "detail": f"solve_sat({name}): {detail}"})
+        if not r["samples"]:
+            r["samples"].append({"multiplier": [nb, prime]})
+    return r
 
 
 def _large_chunk(params, lo, hi):
@@ -501,10 +666,15 @@ def _large_chunk(params, lo, hi):
     cases = large_cases()
     r = new_result()
     for idx in range(lo, hi):
-        name, clauses, cfg, count = cases[idx]
-        cfg = dict(cfg, _guard=MEDIUM)
+        name, clauses, cfg, count = cases[idx][:4]
+        known = cases[idx][4] if len(cases[idx]) > 4 else None
+        cfg = dict(cfg, _guard=HEAVY if known else MEDIUM)
         res, verdict, learned, ncalls, tap_on = call(clauses, cfg)
-        vs_ = judge_big(clauses, cfg, res, verdict, learned, ncalls, tap_on)
+        if known:
+            vs_ = judge_known_models(clauses, cfg, res, verdict, learned, known)
+            r["counters"]["learned_clauses_checked_against_known_models"] += len(learned)
+        else:
+            vs_ = judge_big(clauses, cfg, res, verdict, learned, ncalls, tap_on)
         if verdict is None and count is not None:
             got = len(res.solutions) if res.solutions is not None else (1 if res.solution is not None else 0)
             if got != min(count, cfg.get("solution_limit", 1)):
@@ -824,6 +994,7 @@ def make_jobs(pid, tier, seed):
         )
     )
     sp = special_cases()
+    jobs.append(Job("multiplier_unique_model", len(multiplier_family()), _multiplier_chunk, pid, chunk=1, describe="Tseitin CNFs of n x n array multipliers (n = 10..13, 2 000-5 000 clauses) with the product fixed to the square of a prime, twelve primes per width: one model, hundreds to thousands of analysed conflicts per call under default tuning; verdict, model and every learned clause judged against the known model"))
     jobs.append(Job("large_by_construction", len(large_cases()), _large_chunk, pid, chunk=1, describe="implication chains over 70 and 300 variables, exactly-one of 12, pigeonhole 5->4 and 6->5, 3-SAT with a planted model on 30-60 variables: verdict and model count known by construction"))
     n_lo = len(formula_list(5, 3, 1, 3, 2)) * 3
     if tier == "thorough":
@@ -907,6 +1078,10 @@ def replay(pid, v):
         names = [c[0] for c in large_cases()]
         i = names.index(w["large"])
         rr = _large_chunk(pid, i, i + 1)
+        return rr["violations"][0] if rr["violations"] else None
+    if w.get("multiplier"):
+        i = list(multiplier_family()).index(tuple(w["multiplier"]))
+        rr = _multiplier_chunk(pid, i, i + 1)
         return rr["violations"][0] if rr["violations"] else None
     run_case(pid, [tuple(c) for c in w["clauses"]], dict(w["config"]), r, None)
     return r["violations"][0] if r["violations"] else None
